@@ -22,6 +22,7 @@ import random
 from harness import core
 
 _KINDS = ("script", "ap")
+_WORKERS = max(4, min(16, __import__("os").cpu_count() or 12))
 
 
 def _observe_all(L, R, ap) -> dict:
@@ -103,6 +104,14 @@ def _eval_case(L, case: dict, out: dict) -> dict:
                 f"operator applications {a} and {b_} ({ap['nodes'][b_]['k']}) are two constructor calls of the "
                 f"program but one node object: they cannot both appear in the model ({len(R.merged)} such pairs)",
             ))
+        if R.shared_bodies:
+            # the program handed a callable to each body slot; every slot must get its own body (the
+            # callable called once per slot, its applications made - and emitted - once per body)
+            kind, k, name, ncalls, nslots = R.shared_bodies[0]
+            what = (f"callable {name!r} was handed to a body slot of a {kind} (slot {k}) but that slot holds a Graph object "
+                    f"another body slot already holds / the callable was called {ncalls} time(s) for {nslots} slot(s) "
+                    f"({len(R.shared_bodies)} such slots): the applications it makes are not made once per body; build verdict {out['verdict']}")
+            out["oracle"].append(("legal-rejected" if out["verdict"] != "ok" else "bodies-merged", what))
         if case.get("public") and ap["graphs"][0]["args"] is not None:
             # the public entry point `spox.build` must come to the same verdict and pass the same oracle
             o3 = L.observe_public(R)
@@ -385,19 +394,22 @@ def gen_cases(ck: core.Check) -> tuple[list[dict], dict]:
     stats["skeleton_k1_exhaustive_trees<=3_bodies"] = len(cases) - n0
     n0 = len(cases)
     if ck.thorough:
-        for d, sc in G.skeletons(3, 2):
+        # thorough = about 5 x the quick counts (round 7: the exhaustive 2-value family, 150 000 programs,
+        # made the tier take over an hour on a shared box; it is sampled now, the cheap exhaustive
+        # families - 1 value on trees with <= 4 bodies, cross-scope control outputs <= 5 bodies - stay)
+        for d, sc in G.skeletons(3, 2, rng, sample=1300):
             cases.append({"kind": "script", "script": sc, "descr": d, "family": "skeleton-k2"})
-        stats["skeleton_k2_exhaustive_trees<=3_bodies"] = len(cases) - n0
+        stats["skeleton_k2_sampled"] = len(cases) - n0
         n0 = len(cases)
         for d, sc in G.skeletons(4, 1):
             cases.append({"kind": "script", "script": sc, "descr": d, "family": "skeleton-k1-b4"})
         stats["skeleton_k1_exhaustive_trees<=4_bodies"] = len(cases) - n0
         n0 = len(cases)
-        for d, sc in G.skeletons(3, 3, rng, sample=600):
+        for d, sc in G.skeletons(3, 3, rng, sample=120):
             cases.append({"kind": "script", "script": sc, "descr": d, "family": "skeleton-k3"})
         stats["skeleton_k3_sampled"] = len(cases) - n0
     else:
-        for d, sc in G.skeletons(3, 2, rng, sample=650 * (3 if getattr(ck, "escalated", False) else 1)):
+        for d, sc in G.skeletons(3, 2, rng, sample=560 * (3 if getattr(ck, "escalated", False) else 1)):
             cases.append({"kind": "script", "script": sc, "descr": d, "family": "skeleton-k2"})
         stats["skeleton_k2_sampled"] = len(cases) - n0
         n0 = len(cases)
@@ -414,13 +426,13 @@ def gen_cases(ck: core.Check) -> tuple[list[dict], dict]:
         cases.append({"kind": "script", "script": sc, "descr": d, "family": "cross-ctrl-output"})
     stats["cross_ctrl_output_exhaustive_trees<=%d_bodies" % ck.pick(4, 5)] = len(cases) - n0
     n0 = len(cases)
-    for d, sc in G.cross_skeletons(ck.pick(5, 6), rng, sample=ck.pick(500, 6000)):
+    for d, sc in G.cross_skeletons(ck.pick(5, 6), rng, sample=ck.pick(400, 2000)):
         cases.append({"kind": "script", "script": sc, "descr": d, "family": "cross-ctrl-output-sampled"})
     stats["cross_ctrl_output_sampled"] = len(cases) - n0
     # (ii) seeded random programs
     n0 = len(cases)
     esc = 3 if getattr(ck, "escalated", False) and not ck.thorough else 1
-    for i in range(ck.pick(2100, 12000) * esc):
+    for i in range(ck.pick(1800, 8000) * esc):
         leak_p = [0.0, 0.0, 0.05, 0.3][i % 4]
         sc = G.random_script(rng, rng.randrange(3, 28), leak_p)
         cases.append({"kind": "script", "script": sc, "family": f"random-leak{leak_p}"})
@@ -438,6 +450,12 @@ def gen_cases(ck: core.Check) -> tuple[list[dict], dict]:
     for ln, outer in ((1010, 40),) + (((40, 1010), (1100, None)) if ck.thorough else ()):
         cases.append({"kind": "script", "script": G.long_chain_script(ln, outer), "family": "long-chain"})
     stats["wide_and_long"] = len(cases) - n0
+    # (iv) round 7: one callable object handed to several body slots (4 forms x 6 shapes, three palettes)
+    n0 = len(cases)
+    for d, sc in G.callable_scripts():
+        for _ in range(3):
+            cases.append({"kind": "script", "script": sc, "descr": d, "family": "callable-reuse"})
+    stats["callable_reuse"] = len(cases) - n0
     for i, c in enumerate(cases):
         # operator kinds: every third case keeps the plain constructors, the others draw a palette
         # (bit 3 of a palette: every application draws its own opset module v17..v21)
@@ -463,7 +481,7 @@ def variant_cases(ck: core.Check, results: list[dict]) -> list[dict]:
     rng.shuffle(pool)
     for name, q in G.handmade_aps():
         out.append({"kind": "ap", "ap": q, "family": "handmade:" + name})
-    for r in pool[: ck.pick(160, 1500)]:
+    for r in pool[: ck.pick(160, 600)]:
         for name, q in G.ap_variants(r["ap"], rng):
             out.append({"kind": "ap", "ap": q, "family": "variant:" + name})
     for r in results:
@@ -478,7 +496,7 @@ def run_cases(ck: core.Check, cases: list[dict]) -> list[dict]:
     if len(cases) < 200:
         return [eval_case(c) for c in cases]
     try:
-        with mp.get_context("fork").Pool(12) as pool:
+        with mp.get_context("fork").Pool(_WORKERS) as pool:
             return pool.map(eval_case, cases, chunksize=max(1, len(cases) // 240))
     except Exception as e:  # noqa: BLE001 - a dying worker: fall back to in-process evaluation
         ck.notes.append(f"worker pool failed ({type(e).__name__}: {e}); evaluated in-process")
@@ -489,7 +507,7 @@ def run_history_cases(ck: core.Check, cases: list[dict]) -> list[dict]:
     if len(cases) < 100:
         return [eval_history(c) for c in cases]
     try:
-        with mp.get_context("fork").Pool(12) as pool:
+        with mp.get_context("fork").Pool(_WORKERS) as pool:
             return pool.map(eval_history, cases, chunksize=max(1, len(cases) // 120))
     except Exception as e:  # noqa: BLE001
         ck.notes.append(f"worker pool failed ({type(e).__name__}: {e}); histories evaluated in-process")
@@ -550,7 +568,7 @@ def run(ck: core.Check, prove: bool = True):
     hrng = random.Random(ck.seed * 104729 + 7)
     hrng.shuffle(hsrc)
     hcases = []
-    for k, (j, c) in enumerate(hsrc[: ck.pick(900, 9000)]):
+    for k, (j, c) in enumerate(hsrc[: ck.pick(800, 3000)]):
         hc = {"kind": "history", "script": c["script"], "hseed": hrng.randrange(1 << 30), "family": c.get("family"), "pal": c.get("pal")}
         if k % 3 == 1:
             # another program of the same family (the neighbours in generation order: same scope tree,
@@ -691,6 +709,15 @@ def run(ck: core.Check, prove: bool = True):
                     # leakFreeB  ==>  validG; conversely an accepted emission is leak-free
                     if m.get("wf") and m.get("leak_free") and not m.get("bridge_valid"):
                         mismatch("bridge: build_valid instance (leak-free build not accepted by validG)", ap, None, None)
+                    # the instance of build_valid_mainClean_checked: WFb, build ok, mainCleanB ==> validG (no
+                    # hypothesis about scopes); and how many leak-free builds the static condition covers
+                    if m.get("main_clean") is not None:
+                        stats["main_clean_checked"] = stats.get("main_clean_checked", 0) + 1
+                        stats["main_clean"] = stats.get("main_clean", 0) + int(bool(m["main_clean"]))
+                        if m.get("wf") and m["main_clean"] and not m.get("bridge_valid"):
+                            mismatch("bridge: build_valid_mainClean instance (main-clean build not accepted by validG)", ap, None, None)
+                        if m.get("leak_free") and not m["main_clean"]:
+                            stats["leak_free_but_not_main_clean"] = stats.get("leak_free_but_not_main_clean", 0) + 1
                     if m.get("bridge_valid") and not m.get("leak_free"):
                         mismatch("bridge: accepted emission is not leak-free", ap, None, None)
                     if bool(m.get("bridge_valid")) != bool(m.get("struct_ok")):
